@@ -544,3 +544,53 @@ Proof.
 Qed.
 
 End Proofs.
+
+(* ---- corollaries about the specification itself ---- *)
+Section SpecFacts.
+Variable D : Type.
+Variable decode : list byte -> D.
+
+Lemma nth_error_firstn {A} : forall n (l : list A) i,
+  nth_error (firstn n l) i = if Nat.ltb i n then nth_error l i else None.
+Proof.
+  induction n as [|n IH]; intros l i.
+  - cbn. destruct i; reflexivity.
+  - destruct l as [|x l]; [cbn [firstn]; destruct (Nat.ltb i (S n)); destruct i; reflexivity|].
+    destruct i as [|i]; [reflexivity|]. cbn [firstn nth_error]. rewrite IH. reflexivity.
+Qed.
+
+Lemma nth_error_replace {A} : forall (l1 : list A) a b l2 i, i <> length l1 ->
+  nth_error (l1 ++ a :: l2) i = nth_error (l1 ++ b :: l2) i.
+Proof.
+  induction l1 as [|x l1 IH]; intros a b l2 i Hi.
+  - destruct i as [|i]; [cbn in Hi; congruence|reflexivity].
+  - destruct i as [|i]; [reflexivity|]. cbn. apply IH. cbn in Hi. congruence.
+Qed.
+
+(* replacing one frame by any other changes the result at that position only *)
+Lemma spec_local : forall n fs1 f g fs2 i, i <> length fs1 ->
+  nth_error (spec D decode n (fs1 ++ f :: fs2)) i = nth_error (spec D decode n (fs1 ++ g :: fs2)) i.
+Proof.
+  intros n fs1 f g fs2 i Hi. unfold spec. rewrite !nth_error_firstn.
+  destruct (Nat.ltb i n); [|reflexivity].
+  rewrite !map_app. cbn [map]. rewrite <- !app_assoc. cbn [app].
+  apply nth_error_replace. now rewrite map_length.
+Qed.
+
+(* nothing is fabricated, dropped, duplicated or reordered: the results are, in order, the decoded
+   frames (a prefix of them when n is smaller), followed by end-of-stream only *)
+Lemma firstn_repeatn' {A} (x : A) : forall k m, k <= m -> firstn k (repeatn x m) = repeatn x k.
+Proof.
+  induction k as [|k IH]; intros m Hm; [reflexivity|].
+  destruct m as [|m]; [inversion Hm|]. cbn [repeatn firstn]. f_equal. apply IH. now apply le_S_n.
+Qed.
+
+Lemma spec_exact : forall n fs,
+  spec D decode n fs
+  = map (fun f => Msg (decode f)) (firstn n fs) ++ repeatn REof (n - length fs).
+Proof.
+  intros n fs. unfold spec. rewrite firstn_app, map_length, firstn_map.
+  f_equal. apply firstn_repeatn'. apply Nat.le_sub_l.
+Qed.
+
+End SpecFacts.
